@@ -388,7 +388,7 @@ func shrinkTrie(c *Case, try func(*Case) bool) bool {
 var trieAlphabets = []string{"ab", "abc", "ab\x00", "a\xff\"", "abcd", "\x00\x01\xfe\xff", "ab{}\\\"", "abcdef"}
 
 func genTrieCase(r *core.Rng, depth int) *TrieCase {
-	tc := &TrieCase{Alphabet: []byte(core.Pick(r, trieAlphabets)), MaxLen: core.Pick(r, []int{2, 3, 3, 4, 4, 8})}
+	tc := &TrieCase{Alphabet: []byte(core.Pick(r, trieAlphabets)), MaxLen: core.Pick(r, []int{2, 3, 3, 4, 4, 8, 8, 20, 40, 70})}
 	tc.KeyOrder = genKeyOrder(r)
 	pDel := 0.15 + 0.4*r.Float64()
 	pRestart := 0.05 + 0.2*r.Float64()
